@@ -1,14 +1,348 @@
 package props
 
+// Engine C at SQL level: a few real goroutines run statements (auto-commit or inside one explicit
+// transaction per goroutine) against one real database under the controlled scheduler; every lock /
+// latch acquisition of the engine is a scheduling point; schedules are enumerated up to a preemption
+// bound. Oracle per schedule (order-based form of C04/C05): no deadlock, no panic, and there is a serial
+// order of the COMMITTED transactions, consistent with each goroutine's program order, in which every
+// answered statement returns the row-model answer at its position and which yields the final table.
+// Written values are unique, so a value of a transaction that never committed, or a hidden committed
+// row, cannot be explained by any such order.
+
 import (
 	"encoding/json"
+	"fmt"
 	"sort"
+	"strings"
 
 	"verif/core"
 )
 
 func sortStrings(s []string) { sort.Strings(s) }
 
-// sqlConcurrent / sqlConcReplay: Engine C at SQL level (filled in below).
-func sqlConcurrent(c *core.Ctx, prop string)                    {}
-func sqlConcReplay(raw json.RawMessage, prop string) (string, bool) { return "no concurrent replay yet", false }
+type sqlThread struct {
+	Stmts    []*Stmt
+	Explicit bool // all statements inside one explicit transaction, then commit
+}
+
+type sqlScenario struct {
+	Name    string
+	Seed    []*Stmt
+	Threads []sqlThread
+	Bound   int
+}
+
+type txnRecord struct {
+	thread    int
+	stmts     []*Stmt
+	answers   []string // canon rows per statement ("" for writes)
+	committed bool
+	failure   string
+}
+
+func sqlTable() TableDef { return TableDef{Name: "t", Cols: []ColDef{{"k", TInt}, {"v", TStr}}} }
+
+func (sc *sqlScenario) describe() string {
+	var parts []string
+	for i, th := range sc.Threads {
+		var ss []string
+		for _, s := range th.Stmts {
+			ss = append(ss, shortSQL(s.SQL()))
+		}
+		mode := "auto-commit"
+		if th.Explicit {
+			mode = "one transaction"
+		}
+		parts = append(parts, fmt.Sprintf("G%d(%s): %s", i, mode, strings.Join(ss, " ")))
+	}
+	return strings.Join(parts, " || ")
+}
+
+// build returns the scheduler scenario for prop.
+func (sc *sqlScenario) build(prop string) *core.Scenario {
+	return &core.Scenario{
+		Name:   sc.Name,
+		Bound:  sc.Bound,
+		Params: sc.Name,
+		Setup: func() *core.Harness {
+			dir := NewDir("sqlc")
+			db, f := OpenDB(dir+"/d", 128)
+			if f != nil {
+				panic(f.String())
+			}
+			td := sqlTable()
+			db.MustAuto(td.CreateSQL())
+			for _, s := range sc.Seed {
+				db.MustAuto(s.SQL())
+			}
+			// one record per transaction, in program order per thread
+			recs := make([][]*txnRecord, len(sc.Threads))
+			h := &core.Harness{}
+			for ti := range sc.Threads {
+				ti := ti
+				th := sc.Threads[ti]
+				h.Names = append(h.Names, fmt.Sprintf("G%d", ti))
+				h.Threads = append(h.Threads, func() {
+					if th.Explicit {
+						rec := &txnRecord{thread: ti}
+						recs[ti] = append(recs[ti], rec)
+						t := db.Begin()
+						for _, s := range th.Stmts {
+							r := t.Exec(s.SQL())
+							if r.Fail != nil {
+								rec.failure = r.Fail.String()
+								return
+							}
+							if r.Err != "" {
+								rec.failure = "refused: " + r.Err
+								return
+							}
+							if r.Aborted {
+								if f := t.Abort(); f != nil {
+									rec.failure = f.String()
+								}
+								return
+							}
+							rec.stmts = append(rec.stmts, s)
+							ans := ""
+							if s.Kind == "select" {
+								ans = r.Rows.Canon()
+							}
+							rec.answers = append(rec.answers, ans)
+						}
+						if f := t.Commit(); f != nil {
+							rec.failure = f.String()
+							return
+						}
+						rec.committed = true
+						return
+					}
+					for _, s := range th.Stmts {
+						rec := &txnRecord{thread: ti}
+						recs[ti] = append(recs[ti], rec)
+						r := db.Auto(s.SQL())
+						switch {
+						case r.Fail != nil:
+							rec.failure = r.Fail.String()
+							return
+						case r.Err != "":
+							rec.failure = "refused: " + r.Err
+							return
+						case r.Aborted:
+							continue
+						}
+						rec.stmts = []*Stmt{s}
+						ans := ""
+						if s.Kind == "select" {
+							ans = r.Rows.Canon()
+						}
+						rec.answers = []string{ans}
+						rec.committed = true
+					}
+				})
+			}
+			h.Check = func(x *core.ExecInfo) (*core.Violation, string) {
+				sig := func(clause string) string { return "sqlsched/" + clause + "/" + sc.Name }
+				mk := func(clause, detail string) *core.Violation {
+					return &core.Violation{Property: prop, Signature: sig(clause), Detail: sc.describe() + "\n" + detail}
+				}
+				if len(x.Panics) > 0 {
+					return mk("panic@"+panicSite(x.Panics[0]), strings.Join(x.Panics, "\n")), "panic"
+				}
+				if x.Deadlock {
+					return mk("deadlock", fmt.Sprintf("no thread can run: %v", x.Blocked)), "deadlock"
+				}
+				if x.Horizon {
+					return mk("livelock", "horizon of scheduling points reached"), "horizon"
+				}
+				var outcome []string
+				for ti := range recs {
+					for _, r := range recs[ti] {
+						if r.failure != "" {
+							return mk("statement-failed", fmt.Sprintf("G%d: %s", ti, r.failure)), "failed"
+						}
+						o := "aborted"
+						if r.committed {
+							o = "committed[" + strings.Join(r.answers, ";") + "]"
+						}
+						outcome = append(outcome, fmt.Sprintf("G%d:%s", ti, o))
+					}
+				}
+				// final table, read after the execution (single-threaded again)
+				fin := db.Auto("SELECT k, v FROM t WHERE k >= -1000 OR k >= -1000;")
+				if fin.Fail != nil || fin.Aborted || fin.Err != "" {
+					return mk("final-read-failed", fmt.Sprintf("%+v", fin)), "final-read-failed"
+				}
+				final := fin.Rows.Canon()
+				out := strings.Join(outcome, " ") + " => " + final
+				if !sqlSerialOrderExists(sc.Seed, recs, final) {
+					return mk("no-serial-order", "answers and final table cannot be explained by any serial order of the committed transactions:\n  "+strings.ReplaceAll(out, "\n", "/")), out
+				}
+				return nil, out
+			}
+			h.Cleanup = func() {
+				db.Kill()
+				removeAll(dir)
+			}
+			return h
+		},
+	}
+}
+
+func panicSite(p string) string {
+	if i := strings.Index(p, "\n"); i >= 0 {
+		fr := strings.Split(p[i+1:], " | ")
+		if len(fr) > 0 {
+			f := fr[0]
+			if j := strings.Index(f, "("); j > 0 && strings.HasPrefix(f, "github.com") {
+				f = f[:strings.LastIndex(f, "(")]
+			}
+			return strings.TrimPrefix(f, "github.com/ryogrid/SamehadaDB/lib/")
+		}
+	}
+	return "unknown"
+}
+
+// sqlSerialOrderExists brute-forces the orders of the committed transactions (program order per thread
+// kept) on the row model.
+func sqlSerialOrderExists(seed []*Stmt, recs [][]*txnRecord, final string) bool {
+	var lists [][]*txnRecord
+	for _, rs := range recs {
+		var l []*txnRecord
+		for _, r := range rs {
+			if r.committed {
+				l = append(l, r)
+			}
+		}
+		lists = append(lists, l)
+	}
+	pos := make([]int, len(lists))
+	var rec func(m *Model) bool
+	rec = func(m *Model) bool {
+		done := true
+		for i := range lists {
+			if pos[i] < len(lists[i]) {
+				done = false
+				r := lists[i][pos[i]]
+				m2 := m.Clone()
+				ok := true
+				for si, s := range r.stmts {
+					eff := m2.Apply(0, s)
+					if s.Kind == "select" && eff.Rows.Canon() != r.answers[si] {
+						ok = false
+						break
+					}
+				}
+				if ok {
+					pos[i]++
+					if rec(m2) {
+						pos[i]--
+						return true
+					}
+					pos[i]--
+				}
+			}
+		}
+		if done {
+			return m.Committed("t").Canon() == final
+		}
+		return false
+	}
+	m := NewModel()
+	m.Create(sqlTable())
+	for _, s := range seed {
+		m.Apply(0, s)
+	}
+	return rec(m)
+}
+
+// ---- scenario catalogues -----------------------------------------------------------------------------------
+
+func sqlSeed3() []*Stmt {
+	ins := func(k int, v string) *Stmt {
+		return &Stmt{Kind: "insert", Table: "t", Cols: []string{"k", "v"}, Rows: [][]any{{int32(k), v}}}
+	}
+	return []*Stmt{ins(1, "a1"), ins(2, "a2"), ins(3, "a3")}
+}
+
+func sqlScenarios(prop string, thorough bool) []*sqlScenario {
+	k := func(v int) any { return int32(v) }
+	sel := func(p Pred) *Stmt { return &Stmt{Kind: "select", Table: "t", Cols: []string{"k", "v"}, Where: p} }
+	updV := func(tag string, key int) *Stmt {
+		return &Stmt{Kind: "update", Table: "t", Set: []SetItem{{"v", tag}}, Where: Leaf{"k", "=", k(key)}}
+	}
+	point := func(key int) *Stmt { return sel(Leaf{"k", "=", k(key)}) }
+	rng := sel(And{Leaf{"k", ">=", k(1)}, Leaf{"k", "<=", k(3)}})
+	scan := sel(ForceScan(Leaf{"k", ">=", k(-5)}))
+	ins := func(key int, v string) *Stmt {
+		return &Stmt{Kind: "insert", Table: "t", Cols: []string{"k", "v"}, Rows: [][]any{{k(key), v}}}
+	}
+	del := func(key int) *Stmt { return &Stmt{Kind: "delete", Table: "t", Where: Leaf{"k", "=", k(key)}} }
+	one := func(s ...*Stmt) sqlThread { return sqlThread{Stmts: s} }
+	txn := func(s ...*Stmt) sqlThread { return sqlThread{Stmts: s, Explicit: true} }
+	bound := 2
+	var out []*sqlScenario
+	add := func(name string, th ...sqlThread) {
+		out = append(out, &sqlScenario{Name: name, Seed: sqlSeed3(), Threads: th, Bound: bound})
+	}
+	switch prop {
+	case "C04":
+		add("update-v||point-read", one(updV("w1", 2)), one(point(2)))
+		add("update-v||range-read", one(updV("w1", 2)), one(rng))
+		add("update-v||scan-read", one(updV("w1", 2)), one(scan))
+		add("insert||range-read", one(ins(2, "n1")), one(rng))
+		add("delete||point-read", one(del(2)), one(point(2)))
+		add("delete||scan-read", one(del(1)), one(scan))
+		add("txn(update,update)||range-read", txn(updV("w1", 1), updV("w1b", 3)), one(rng))
+		if thorough {
+			add("insert||scan-read", one(ins(4, "n1")), one(scan))
+			add("update||update||point-read", one(updV("w1", 2)), one(updV("w2", 2)), one(point(2)))
+			add("txn(insert,delete)||range-read", txn(ins(5, "n1"), del(2)), one(rng))
+		}
+	case "C05":
+		add("lost-update", txn(point(2), updV("w1", 2)), txn(point(2), updV("w2", 2)))
+		add("write-skew", txn(point(1), updV("w1", 2)), txn(point(2), updV("w2", 1)))
+		add("repeatable-read", txn(point(2), point(2)), one(updV("w2", 2)))
+		add("range-read-vs-writer", txn(rng, updV("w1", 1)), one(updV("w2", 3)))
+		if thorough {
+			add("scan-read-vs-writer", txn(scan, updV("w1", 1)), one(updV("w2", 3)))
+			add("three-way", txn(point(1), updV("w1", 2)), txn(point(2), updV("w2", 3)), txn(point(3), updV("w3", 1)))
+		}
+	}
+	return out
+}
+
+func sqlConcurrent(c *core.Ctx, prop string) {
+	scs := sqlScenarios(prop, c.Thorough())
+	c.Res.Bound["concurrent_scenarios"] = len(scs)
+	for _, sc := range scs {
+		if c.Thorough() {
+			sc.Bound = 3
+		}
+		if c.Expired() {
+			return
+		}
+		core.ExploreSched(c, sc.build(prop))
+	}
+}
+
+func sqlConcReplay(raw json.RawMessage, prop string) (string, bool) {
+	var rp struct {
+		Scenario string `json:"scenario"`
+		Choices  []int  `json:"choices"`
+	}
+	json.Unmarshal(raw, &rp)
+	for _, th := range []bool{false, true} {
+		for _, sc := range sqlScenarios(prop, th) {
+			if sc.Name == rp.Scenario {
+				x, v, out, div := core.RunSchedule(sc.build(prop), rp.Choices)
+				desc := fmt.Sprintf("%s\nschedule of %d points -> %s %s", sc.describe(), len(x.Trace), out, div)
+				if v != nil {
+					return desc + "\n" + v.Detail, true
+				}
+				return desc, false
+			}
+		}
+	}
+	return "scenario not found: " + rp.Scenario, false
+}
